@@ -579,6 +579,10 @@ var sharedApp *tars.VerifApp
 var debug = os.Getenv("C15_DEBUG") != ""
 
 func main() {
+	if os.Getenv("C15_BURST") != "" {
+		burstChild()
+		return
+	}
 	run = vlib.Start("C15")
 	rogger.SetLevel(rogger.OFF)
 	run.SetRule("seeded scripts of 20..80 steps over 2..4 registry endpoints (distinct loopback hosts): batches of real calls (60 ms timeout), behaviour changes per endpoint {answer, silent, refuse}, virtual time advances {1,2,9,10,12,34,35,40,70 s}, status checks; a healing tail (35 s x 4 rounds). Trace assertions: P1 no removal without failures, P2 no removal with <2 failures, P3 >=5 consecutive failures over >=8 s (margin) => removed at the next check while another endpoint is active, P4 a blocked endpoint sees at most one probe per 27 s (margin), P5 reinstated iff the probe succeeded, P6 calls are attempted somewhere when all are blocked. A case is one script; distinct by (script, endpoints, probes per endpoint, calls).")
@@ -606,5 +610,6 @@ func main() {
 		}(i)
 	}
 	wg.Wait()
+	burstPhase()
 	run.Finish()
 }
